@@ -188,6 +188,7 @@ inline Obj gen_obj(char type, int64_t base_id, const Profile& p) {
             o.members.push_back(m);
         }
     } else {
+        if (o.uid == 0) { o.user.clear(); } // an anonymous changeset has no user name (XML writes neither, xml_output_format.hpp changeset())
         o.created_at = gen_time(s);
         o.closed_at = sim::choose(s, 3) ? gen_time(s) : 0;
         o.num_changes = gen_u32(s);
